@@ -1001,7 +1001,7 @@ def classify(case, obs):
         return f'bytes/{case["api"]}/{case["store"]}/read={"err:" + r["err"] if "err" in r else "ok"}'
     name = case.get('name', case.get('a', ''))
     import unicodedata
-    if ok_nfc := (unicodedata.normalize('NFC', name + case.get('b', '')) != name + case.get('b', '')):
+    if unicodedata.normalize('NFC', name + case.get('b', '')) != name + case.get('b', ''):
         return f'{k}/{"normalised" if normalised(name) else "odd"}/non-NFC'
     ok = normalised(name) and (k != 'mpath' or normalised(case['b']))
     return f'{k}/{"normalised" if ok else "odd"}/{"unicode" if any(ord(c) > 127 for c in name) else "ascii"}'
